@@ -191,6 +191,15 @@ def wrapper_part(ctx, sc):
     ctx.extra['wrapper_histories_nonblocking_raw'] = sum(t['nb'] for t in traces)
 
 
+def _claims_huge(data):
+    """some long-form length field in the input announces >= 2^31 octets"""
+    for i, b in enumerate(data):
+        k = b - 0x80
+        if 4 <= k <= 8 and i + k < len(data) + 1 and int.from_bytes(data[i + 1:i + 1 + k], 'big') >= 2 ** 31:
+            return True
+    return False
+
+
 # --------------------------------------------------------------------------- kinds
 KINDS = ['bytes', 'BytesIO', 'OctetString', 'Any', 'file', 'gzip', 'BufferedReader', 'nonseekable', 'stream-bytes',
          'stream-nonseekable']
@@ -358,7 +367,7 @@ def kinds_part(ctx, sc):
         o0 = allobs[t['input']][KINDS.index(ref)]
         f = {'clause': clause, 'part': 'kinds', 'kind': kind, 'rules': rules, 'size': len(data), 'big': len(data) > io.DEFAULT_BUFFER_SIZE,
              'definite_container': data[:1] in (b'\x30', b'\x31') and len(data) > 1 and data[1] != 0x80,
-             'obs': o[0], 'ref_obs': o0[0], 'guided': guided}
+             'obs': o[0], 'ref_obs': o0[0], 'guided': guided, 'claims_2GiB_or_more': _claims_huge(data)}
         ctx.report('%s: %s input of %d octets (%s...) as %s gives %s, as %s gives %s' % (
             clause, rules, len(data), data[:12].hex(), kind, o[0], ref, o0[0]), f,
             {'prop': 'C11', 'kind': 'kinds', 'rules': rules, 'data': data.hex() if len(data) < 4000 else data[:64].hex() + '...(%d octets)' % len(data),
